@@ -202,7 +202,13 @@ def run(prog: Program, rep: Report, tier: str):
             o = rep.bad("G2.draws", e.fi.module, f"{e.kind}:{e.text}", f"reachable from {C.name}.__call__: "
                         f"{e.detail or e.kind}", line=e.line, clause="C07.3")
             o.func = e.fi.qualname
-        if not bad:
+        lazy = [e for e in events if e.kind == "from-global-lazy"]
+        for e in lazy[:1]:
+            o = rep.unk("G2.draws", e.fi.module, f"lazy-construction:{e.text[:50]}", f"reachable from {C.name}.__call__ behind a "
+                        f"memo-miss test: {e.detail}; whether the constructor fills the memo for every configuration (so that the "
+                        f"call never constructs) is not decided", line=e.line, clause="C07.3")
+            o.func = e.fi.qualname
+        if not bad and not lazy:
             n_draws = sum(e.kind == "explicit" for e in events)
             o = rep.ok("G2.draws", C.module, "call-path", f"{len(analysed)} functions reachable from __call__, "
                        f"{n_draws} draws, all on the controlled generator", line=C.node.lineno, clause="C07.3",
